@@ -498,6 +498,18 @@ example :
     burstWrites 4 r [w] = [(4, 0xef), (5, 0xbe), (6, 0xad), (7, 0xde)] ∧
     burstWrites 8 (upAx 1 r) (upWords 2 [w]) = [] := by decide
 
+/-- Outside, along the size axis (narrow-size burst; region of the same known finding, "not full-width"): 32 → 64,
+    two 2-byte beats at 0x0 (bytes 0-1 on lanes 0-1, bytes 2-3 on lanes 2-3 of the 32-bit bus).  The address channel
+    is translated correctly (`AW(0x0, len 0, size 2)`: the same 4 bytes), but the data path packs whole 32-bit words:
+    bytes 2-3 land in lanes 6-7 of the wide word, outside the forwarded transfer - they are never written. -/
+example :
+    let w0 : BWord := [(0xa, true), (0xb, true), (0, false), (0, false)]
+    let w1 : BWord := [(0, false), (0, false), (0xc, true), (0xd, true)]
+    let r : Req := ⟨0x0, 1, 1, BURST_INCR, 0⟩
+    UpRegion 1 r ∧ burstBytes 0 0 2 BURST_INCR = burstBytes 0 1 1 BURST_INCR ∧
+    burstWrites 4 r [w0, w1] = [(0, 0xa), (1, 0xb), (2, 0xc), (3, 0xd)] ∧
+    burstWrites 8 (upAx 1 r) (upWords 2 [w0, w1]) = [(0, 0xa), (1, 0xb)] := by decide
+
 /-- Down-converter, outside along the length axis (witness FAMILY; known finding C10-downconv-len-overflow): whenever
     `(len+1)·ratio` exceeds 256 the forwarded burst has fewer beats than the `ratio` narrow beats per wide beat the
     data path emits. -/
